@@ -723,6 +723,19 @@ class H3Connection:
         ):
             raise FrameUnexpected("Invalid frame type on control stream")
 
+    def _end_of_stream_event(self, stream: H3Stream) -> H3Event:
+        """
+        Return the event signalling the end of a request or push stream when
+        no HEADERS or DATA event is available to carry the flag.
+        """
+        self._check_content_length(stream)
+        return DataReceived(
+            data=b"",
+            push_id=stream.push_id,
+            stream_id=stream.stream_id,
+            stream_ended=True,
+        )
+
     def _check_content_length(self, stream: H3Stream):
         if (
             stream.expected_content_length is not None
@@ -977,6 +990,10 @@ class H3Connection:
             stream.frame_type == FrameType.DATA
             and stream.frame_size is not None
             and len(stream.buffer) < stream.frame_size
+            # Once the FIN is known the general path below must run, so that a
+            # DATA frame cut short by the end of the stream signals the end
+            # exactly as it does when the stream arrives in one piece.
+            and not stream.receiving_ended
         ):
             stream.content_length += len(stream.buffer)
             http_events.append(
@@ -992,17 +1009,16 @@ class H3Connection:
             return http_events
 
         # handle lone FIN
-        if stream_ended and not stream.buffer:
-            self._check_content_length(stream)
-
-            http_events.append(
-                DataReceived(
-                    data=b"",
-                    push_id=stream.push_id,
-                    stream_id=stream.stream_id,
-                    stream_ended=True,
-                )
-            )
+        #
+        # A frame other than DATA whose payload is still incomplete never
+        # produces an event when the stream arrives in one piece, so a FIN
+        # arriving on its own must not produce one either.
+        if (
+            stream_ended
+            and not stream.buffer
+            and (stream.frame_size is None or stream.frame_type == FrameType.DATA)
+        ):
+            http_events.append(self._end_of_stream_event(stream))
             return http_events
 
         buf = Buffer(data=stream.buffer)
@@ -1087,6 +1103,18 @@ class H3Connection:
 
         # remove processed data from buffer
         stream.buffer = stream.buffer[consumed:]
+
+        # The stream ended right after a frame which has no event carrying the
+        # end flag (unknown or GREASE frame, PUSH_PROMISE): report the end the
+        # same way as when the FIN arrives on its own.
+        if (
+            stream.receiving_ended
+            and not stream.blocked
+            and not stream.buffer
+            and stream.frame_size is None
+            and not any(getattr(e, "stream_ended", False) for e in http_events)
+        ):
+            http_events.append(self._end_of_stream_event(stream))
 
         return http_events
 
@@ -1226,16 +1254,23 @@ class H3Connection:
             stream = self._stream[stream_id]
 
             # resume headers
-            http_events.extend(
-                self._handle_request_or_push_frame(
-                    frame_type=stream.blocked_frame_type,
-                    frame_data=None,
-                    stream=stream,
-                    stream_ended=stream.receiving_ended and not stream.buffer,
-                )
+            resumed_events = self._handle_request_or_push_frame(
+                frame_type=stream.blocked_frame_type,
+                frame_data=None,
+                stream=stream,
+                stream_ended=stream.receiving_ended and not stream.buffer,
             )
+            http_events.extend(resumed_events)
             stream.blocked = False
             stream.blocked_frame_size = None
+
+            # a resumed PUSH_PROMISE cannot carry the end flag, see above
+            if (
+                stream.receiving_ended
+                and not stream.buffer
+                and not any(getattr(e, "stream_ended", False) for e in resumed_events)
+            ):
+                http_events.append(self._end_of_stream_event(stream))
 
             # resume processing
             if stream.buffer:
